@@ -960,7 +960,7 @@ class RemoterTls(Remoter):
                                 errno.EHOSTDOWN,
                                 errno.ETIMEDOUT,
                                 errno.ECONNREFUSED,
-                                ssl.SSLEOFError):
+                                ssl.SSL_ERROR_EOF):
                 self.cutoff = True  # this signals need to close/reopen connection
                 return bytes()  # data empty
             else:
@@ -999,7 +999,7 @@ class RemoterTls(Remoter):
                                 errno.EHOSTDOWN,
                                 errno.ETIMEDOUT,
                                 errno.ECONNREFUSED,
-                                ssl.SSLEOFError):
+                                ssl.SSL_ERROR_EOF):
                 self.cutoff = True  # this signals need to close/reopen connection
                 result = 0
             else:
